@@ -136,19 +136,12 @@ theorem removeTokenLoop_allQ {Q} (bs : Nat) (tok : Bytes) (h44 : Q 44) (h32 : Q 
       · simp only [hf] at h
         exact removeTokenLoop_allQ bs tok h44 h32 fuel _ _ _ res hs3 ho h
       · simp only [hf] at h
-        have hs' : AllQ Q (if ((matchTok (s.dropWhile isWsComma) tok).1 == tok.length && tok.length != 0) = true then
-            (matchTok (s.dropWhile isWsComma) tok).2.dropWhile isWs else (matchTok (s.dropWhile isWsComma) tok).2) := by
-          split
-          · exact hs3
-          · exact hm
-        cases hc : copyOneToken bs (s.dropWhile isWsComma)
-            (if ((matchTok (s.dropWhile isWsComma) tok).1 == tok.length && tok.length != 0) = true then
-              (matchTok (s.dropWhile isWsComma) tok).2.dropWhile isWs else (matchTok (s.dropWhile isWsComma) tok).2) out with
+        cases hc : copyOneToken bs (s.dropWhile isWsComma) (matchTok (s.dropWhile isWsComma) tok).2 out with
         | none => rw [hc] at h; simp at h
         | some p =>
           obtain ⟨s'', out2⟩ := p
           rw [hc] at h; simp only [] at h
-          have hq := copyOneToken_allQ bs _ _ _ _ _ h44 h32 hs1 hs' ho hc
+          have hq := copyOneToken_allQ bs _ _ _ _ _ h44 h32 hs1 hm ho hc
           exact removeTokenLoop_allQ bs tok h44 h32 fuel _ _ _ res hq.1 hq.2 h
 
 theorem removeTokenCaseless_allQ {Q} (str tok : Bytes) (bs : Nat) (res : RemoveRes) (h44 : Q 44) (h32 : Q 32)
